@@ -248,6 +248,7 @@ def signature(tr, matched):
 
 def check(prop, tier, seed, into=None):
     v = into or Verdict(prop, tier, seed)
+    label_counts = {}
     rnd = random.Random(seed)
     tot = {"states": 0, "transitions": 0, "paths": 0, "drift": 0}
     alltraces = []
@@ -256,6 +257,8 @@ def check(prop, tier, seed, into=None):
         tot["states"] += res["distinct"]
         tot["transitions"] += res["generated"]
         edges = read_ndjson(res["files"]["edges.ndjson"])
+        for e_ in edges:
+            label_counts[e_["a"][0]] = label_counts.get(e_["a"][0], 0) + 1
         paths = build_paths(edges, lambda f: f["h"] == 0 and f["m"] == 0 and not f["o"] and all(x == cfg[3] for x in f["l"]))
         tot["paths"] += len(paths)
         with mp.Pool(min(16, os.cpu_count() or 4)) as pool:
@@ -286,12 +289,16 @@ def check(prop, tier, seed, into=None):
         v.sample({"cfg": t["cfg"], "path": t["path"][:12], "events": t["ev"][:8]})
     v.assumptions += ["a clear resets the statistics; a call in flight was counted before the reset and is not counted again",
                       "the wrapped function is the instrumented coroutine function of the harness (suspends FnSusp times, returns a fresh value per invocation)"]
+    vac = dict(label_counts)
+    missing = [a for a in ["start", "tick", "fail", "cancel", "clear", "discard"] if not vac.get(a)]
+    if missing:
+        raise MachineryError(f"vacuity guard: actions never taken in the explored graphs: {missing}")
     return v.finish({
         "states": tot["states"], "transitions": tot["transitions"],
         "traces_validated_against_impl": st["traces"] + tot["paths"], "edge_cover_paths": tot["paths"],
         "drifted_replays": tot["drift"], "drift_benign": benign, "random_schedule_traces": len(rres),
         "traces_validated_by_TLC_against_LruObs": st["traces"], "trace_validation": st,
-        "configs": [list(c) for c in TIERS[tier]], "exhaustive": True,
+        "configs": [list(c) for c in TIERS[tier]], "exhaustive": True, "vacuity_guard_actions_taken": vac,
         "evaluations": tot["paths"] + len(rres), "distinct_nontrivial": tot["paths"],
         "rule": "one replay per transition of the LruConc state graph (shortest path + edge + drain + sequential probe of every key)",
         "checker_cmd": "tlc spec/LruConc.tla ; tlc -workers 1 spec/LruObs.tla (TRACE_FILE=...)",
